@@ -18,7 +18,7 @@ Ops of C04:
   dictionary text and data, then `GetObjectByIndex` for every index in order on the one object:
   `num:value` or `e` per call (the state machine of c437385: `osRunK`, the header error kept).
 * `c04.nest <d> <top> <ops>` — the reader's caches on a chain file of `d` nested integers
-  (Model/XrefNestCache.lean): ops `a<i>` / `s<i>` / `t` = GetObject of `A i` / `S i` / `T`,
+  (Model/XrefNestCache.lean): ops `a<i>` / `b<i>` / `s<i>` / `t` = GetObject of `A i` / `B i` / `S i` / `T`,
   `c` = ClearCache; one of `1` (found), `0` (error), `-` (clear) per op.
 `inflate`: `_` or `<in>><out>;…` (zlib's answers, `!` = rejected).
 -/
@@ -232,6 +232,7 @@ def handleBytes (op : String) (args : List String) : Option String :=
       | ['c'] => some .clear
       | ['t'] => some .t
       | 'a' :: r => (String.ofList r).toNat?.map .a
+      | 'b' :: r => (String.ofList r).toNat?.map .b
       | 's' :: r => (String.ofList r).toNat?.map .s
       | _ => none
     match d.toNat?, (ops.splitOn ",").mapM parseOp with
